@@ -188,6 +188,36 @@ CHECKS.update({
         note='For sort=False only "permutation within each chunk" is demanded, as the property states.'),
 })
 
+CHECKS.update({
+    'C06': dict(
+        cat='model_checking', ref='DESIGN.md 4.6, 6/C06, 9', engine='codec',
+        technique='TLA+ Codec: history machine (compute, re-read, two fresh loads) model-checked; TLC-enumerated value '
+                  'shapes x named boundary atoms per data kind replayed on real chains with exact comparison and file hashes',
+        text='Partially applicable (DESIGN.md 9): TLC decides the state-machine part - returned, held, stored and loaded '
+             'values are one value, loading is read-only, falsy values are values - and enumerates shapes (atoms, lists, '
+             'mappings, nesting depth 2) per kind. The binding instantiates each shape with each boundary atom (JSON: 25 '
+             'atoms incl. +-2^63, 2^64-1, -0.0, denormal, max float, unicode / separators / NUL / 12k-char strings; '
+             'numpy: 11 dtypes x 5 shapes incl. 0-d and empty, string and bytes arrays; pandas: 14 frames / series; '
+             'generated sequences; lists of arrays; directory trees) and compares what the computing chain returns, '
+             're-reads and what two later chains load - type-, dtype-, shape-, order- and sign-exact - and hashes the '
+             'stored files before and after every load.',
+        note='A bounded, enumerated domain, not "all values": encodings (orjson, npy, pickle) are outside TLA+. '
+             'FigureData/H5Data not exercised.'),
+    'C11': dict(
+        cat='model_checking', ref='DESIGN.md 4.6, 6/C11', engine='placeholders',
+        technique='TLA+ Placeholders: the code\'s regular expression transcribed on character sequences and checked equal '
+                  'to the property by TLC on all strings up to length 5-6; every case replayed on '
+                  'search_and_replace_placeholders, on structures, copies and through Config',
+        text='TLC enumerates all strings over {, }, A, B, x up to length 5 (quick) / 6 x 5 global_vars menus (incl. values '
+             'containing placeholder syntax, names that are prefixes of one another) and checks ISubst = PSubst; the '
+             'pinned lazy expression is shown to violate it (nested braces). Every case is run on the real function with '
+             'mapping and object global_vars: result, ReprStr representation, ordinary-string behaviour, idempotence, '
+             'copy/deepcopy, nested structures (keys and non-strings untouched, identity preserved); plus one Config '
+             'exercising uses paths, context and for_namespaces values, object arguments, parameter value / repr, '
+             'deepcopy(config) and key independence from the substituted value.',
+        note='Alphabet and names are small by construction; tuples/sets inside config data are not exercised.'),
+})
+
 PENDING = {
     'C02': 'check not built yet (KeyScheme specification in progress)',
     'C03': 'check not built yet (KeyScheme specification in progress)',
@@ -256,6 +286,10 @@ def main():
              'kind_free_text': 'TLA+ binding transcription + call-sequence dictionary for the cached decorator'},
             {'name': 'parmap', 'path': '/verif/specs/ParMap.tla', 'serves_properties': ['C17'],
              'kind_free_text': 'TLA+ model of chunked parallel map with arbitrary completion order'},
+            {'name': 'codec', 'path': '/verif/specs/Codec.tla', 'serves_properties': ['C06'],
+             'kind_free_text': 'TLA+ history machine + shape enumeration for round trips'},
+            {'name': 'placeholders', 'path': '/verif/specs/Placeholders.tla', 'serves_properties': ['C11'],
+             'kind_free_text': 'TLA+ substitution on character sequences, property vs regular-expression transcription'},
             {'name': 'store', 'path': '/verif/specs/StoreAtomic.tla',
              'serves_properties': ['C01', 'C04', 'C07', 'C13'],
              'kind_free_text': 'TLA+ specification of task objects / chains / data directory at public-call '
